@@ -83,9 +83,14 @@ func collect1(q ecs.Query1[A]) []ecs.Entity {
 func collect2(q ecs.Query2[A, R]) []ecs.Entity {
 	var out []ecs.Entity
 	n := q.Count()
+	var first ecs.Entity
 	for q.Next() {
 		out = append(out, q.Entity())
-		_ = q.GetRelation(1)
+		if tg := q.GetRelation(1); len(out) == 1 {
+			first = tg
+		} else if tg != first {
+			out = append(out, ecs.Entity{}) // poison: one query yields rows of two targets
+		}
 	}
 	if n != len(out) {
 		out = append(out, ecs.Entity{})
@@ -116,7 +121,15 @@ func TestConcurrentQueries(t *testing.T) {
 		sharedCached := ecs.NewFilter1[A](w).With(ecs.C[B]()).Register()
 		sharedRel := ecs.NewFilter2[A, R](w)
 		tgt := x.targets[r.Intn(3)]
+		if r.Intn(2) == 0 {
+			// a batch selection through the shared filter with a per-call target (fills the filter's
+			// internal relation buffer); later queries with their own targets must not share it
+			_ = sharedRel.Batch(ecs.RelIdx(1, x.targets[r.Intn(3)]))
+		}
 		fns := []queryFn{
+			func() []ecs.Entity { return collect2(sharedRel.Query(ecs.RelIdx(1, x.targets[0]))) },
+			func() []ecs.Entity { return collect2(sharedRel.Query(ecs.RelIdx(1, x.targets[1]))) },
+			func() []ecs.Entity { return collect2(sharedRel.Query(ecs.RelIdx(1, x.targets[2]))) },
 			func() []ecs.Entity { return collect1(shared.Query()) },
 			func() []ecs.Entity { return collect1(sharedCached.Query()) },
 			func() []ecs.Entity { return collect2(sharedRel.Query(ecs.RelIdx(1, tgt))) },
@@ -134,6 +147,9 @@ func TestConcurrentQueries(t *testing.T) {
 		}
 		// sequential reference on fresh filters
 		want := []string{
+			key(collect2(ecs.NewFilter2[A, R](w).Query(ecs.RelIdx(1, x.targets[0])))),
+			key(collect2(ecs.NewFilter2[A, R](w).Query(ecs.RelIdx(1, x.targets[1])))),
+			key(collect2(ecs.NewFilter2[A, R](w).Query(ecs.RelIdx(1, x.targets[2])))),
 			key(collect1(ecs.NewFilter1[A](w).Query())),
 			key(collect1(ecs.NewFilter1[A](w).With(ecs.C[B]()).Query())),
 			key(collect2(ecs.NewFilter2[A, R](w).Query(ecs.RelIdx(1, tgt)))),
@@ -145,9 +161,9 @@ func TestConcurrentQueries(t *testing.T) {
 			if phase == 1 {
 				// new archetype => registry version changes => the shared filters refresh their hint concurrently
 				ecs.NewMap2[A, C](w).NewEntity(&A{1}, &C{1})
-				want[0] = key(collect1(ecs.NewFilter1[A](w).Query()))
-				want[3] = key(collect1(ecs.NewFilter1[A](w).Without(ecs.C[C]()).Query()))
-				want[4] = want[0]
+				want[3] = key(collect1(ecs.NewFilter1[A](w).Query()))
+				want[6] = key(collect1(ecs.NewFilter1[A](w).Without(ecs.C[C]()).Query()))
+				want[7] = want[3]
 			}
 			var wg sync.WaitGroup
 			start := make(chan struct{})
@@ -157,7 +173,7 @@ func TestConcurrentQueries(t *testing.T) {
 				go func(g int) {
 					defer wg.Done()
 					<-start
-					for i := 0; i < 3; i++ {
+					for i := 0; i < 4; i++ {
 						j := (g + i) % len(fns)
 						if got := key(fns[j]()); got != want[j] {
 							errs <- fmt.Sprintf("query kind %d in goroutine %d: got %s want %s", j, g, got, want[j])
@@ -175,7 +191,7 @@ func TestConcurrentQueries(t *testing.T) {
 			if w.IsLocked() {
 				t.Fatalf("VERIF-REPLAY seed=%d round=%d: world locked after all queries finished", seed(), k)
 			}
-			total += goroutines * 3
+			total += goroutines * 4
 		}
 		sharedCached.Unregister()
 	}
